@@ -145,6 +145,7 @@ const BF_OPTIONS: &[&str] = &[
 const BF2_PATTERNS: &[&str] = &[
     "||ads.net/ads", "||ads.net/bar", "||ads.net^foo", "||ads.net^bar", "||ads.net*ads", "||ads.net*bar", "||a.ads.net/ads", "||example.com/ads",
     "||ads.net^", "||ads.net/", "ads.net/ads", "|https://ads.net/ads", "||ads.net/ads|", "/ads", "/bar", "/ads|", "|https://ads.net/bar",
+    "/ads\\d+foo/", "/ads\\D+foo/", "/Ads\\d+foo/",
     "@@||ads.net/ads", "@@||ads.net/bar", "@@||ads.net^foo", "@@/ads", "||ads.net/ads^", "||ads.net/foo/bar", "||ads.net/foo*bar", "||ads.net/ads*bar",
 ];
 const BF2_OPTIONS: &[&str] = &["", "script", "domain=example.com"];
@@ -232,6 +233,10 @@ fn check_badfilter_pair(y: (&str, &str), z: (&str, &str), reqs: &[Req], l: &mut 
     // the list under test: y once; when z cancels y, also y twice and y next to another spelling
     // of the same rule (an alias of one of its options): z cancels every one of them
     let mut variants: Vec<Vec<String>> = vec![vec![base.to_string(), ytxt.clone(), ztxt.clone()]];
+    // a blocking y is invisible behind the base rule: once more without it
+    if !ytxt.starts_with("@@") {
+        variants.push(vec![ytxt.clone(), ztxt.clone()]);
+    }
     if cancels {
         variants.push(vec![base.to_string(), ytxt.clone(), ytxt.clone(), ztxt.clone()]);
         if let Some(alias) = BF_OPTIONS.iter().find(|o| **o != y.1 && normalise(o) == normalise(y.1)) {
@@ -242,6 +247,9 @@ fn check_badfilter_pair(y: (&str, &str), z: (&str, &str), reqs: &[Req], l: &mut 
     // cancelled ids then has several members)
     let plain = variants.len();
     for k in 0..plain {
+        if variants[k].first().map(|s| s.as_str()) != Some(base) {
+            continue;
+        }
         let mut v = variants[k].clone();
         v.insert(1, "zz1$badfilter".to_string());
         v.push("||zz2.com^$script,badfilter".to_string());
@@ -253,7 +261,13 @@ fn check_badfilter_pair(y: (&str, &str), z: (&str, &str), reqs: &[Req], l: &mut 
     let list: Vec<&str> = list_owned.iter().map(|s| s.as_str()).collect();
     let e = build_engine(&list, &[], false, false);
     l.states += 1;
-    let expected_rules = if cancels { ns::parse_rules(&[base], &[]) } else { ns::parse_rules(&[base, ytxt.as_str()], &[]) };
+    let with_base = list.first() == Some(&base);
+    let expected_rules = match (cancels, with_base) {
+        (true, true) => ns::parse_rules(&[base], &[]),
+        (true, false) => ns::parse_rules(&[], &[]),
+        (false, true) => ns::parse_rules(&[base, ytxt.as_str()], &[]),
+        (false, false) => ns::parse_rules(&[ytxt.as_str()], &[]),
+    };
     let tags = HashSet::new();
     let act = ns::active_rules_by_text(&expected_rules, &tags);
     for rq in reqs {
@@ -281,7 +295,7 @@ fn check_badfilter_pair(y: (&str, &str), z: (&str, &str), reqs: &[Req], l: &mut 
             None
         };
         if let Some(field) = ns::diff_verdict(&s.verdict, &got).or(csp_diff) {
-            let sig = if cancels { format!("c04.badfilter.not-cancelled{}.{}", ["", ".second-copy", ".other-spelling"][vi % plain.max(1)], field) } else { format!("c04.badfilter.wrongly-cancelled-or-matching.{}", field) };
+            let sig = if cancels { format!("c04.badfilter.not-cancelled{}.{}", ["", ".variant1", ".variant2", ".variant3", ".variant4", ".variant5"][(vi % plain.max(1)).min(5)], field) } else { format!("c04.badfilter.wrongly-cancelled-or-matching.{}", field) };
             l.mismatch(Mismatch {
                 sig,
                 what: format!("list {:?}: oracle says {:?} {} {:?}; request ({}, {}, {}) reference {:?} engine {:?}", list, ztxt, if cancels { "disables" } else { "does not disable" }, ytxt, rq.url, rq.source, rq.ty, s.verdict, got),
